@@ -1,6 +1,8 @@
 """C05 - illegal cycles are always diagnosed; none of them makes a later phase recurse forever."""
 import re
 
+import guards
+
 from mirlib import AnchorMissing, op_place, path_matches, is_bare, place_projs
 from helpers import (branches_on_call, enum_switches, edge_region, eq_branches, must_pass, origin_calls, ungated_reach, chain,
                      aggregates, field_accesses, loop_of, vexpr, bool_branches)
@@ -99,6 +101,36 @@ def _payload_adt(ty):
     return m.group(1) if m else None
 
 
+
+def _dead_end_edges(prog, f):
+    """(bb, target) edges on which a function of the detector returns because the type is a recorded dead end"""
+    out = []
+    for b in branches_on_call(f, lambda c: c.name() == 'contains' and re.search(r'dead_ends', vexpr(f, c.args[0]))):
+        out.append((b['bb'], b['true']))
+    return out
+
+
+def _collected_and_iterated(prog, f, sw, tgt, fld, rets):
+    """the arm stores a reference to payload.<fld> into a list, and the function then recurses into every element of that list"""
+    others = [x for k, x in sw['arms'].items() if x != tgt] + ([sw['otherwise']] if sw['otherwise'] != tgt else [])
+    region = f.reachable(tgt, blocked=others)
+    stored = False
+    for bb, j, lhs, rv, s in f.assigns():
+        if bb in region and rv['k'] == 'ref':
+            names = [x.get('n') for x in rv['p'].get('p', []) if isinstance(x, dict) and 'f' in x]
+            if names and names[-1] == fld:
+                stored = True
+    rec = [c for c in f.calls() if path_matches(c.resolved, 'check_field_type_for_cycles') and loop_of(f, c.bb) is not None and re.match(r'^next\(into_iter\(', vexpr(f, c.args[1]))]
+    if not (stored and rec):
+        return False
+    head = loop_of(f, rec[0].bb)[0]
+    return must_pass(f, tgt, rets, [head], unwind=False) or bool(_must_pass_cut(f, tgt, rets, [head], _dead_end_edges(prog, f)))
+
+
+def _must_pass_cut(f, start, targets, through, cut_edges):
+    reach = f.reachable(start, blocked=list(through), blocked_edges=cut_edges)
+    return not (reach & set(targets))
+
 def r_wrapper_coverage(r, prog):
     f = prog.fn(CD + "CycleDetector::<'a>::check_field_type_for_cycles")
     types_adt = 'slicec::grammar::wrappers::Types'
@@ -144,6 +176,8 @@ def r_wrapper_coverage(r, prog):
                                 calls.append(c)
                 if calls and must_pass(f, tgt, rets, [c.bb for c in calls]):
                     r.ok('Types::%s: recursion into %s.%s on every path' % (v['n'], payload.rsplit('::', 1)[-1], fld))
+                elif _collected_and_iterated(prog, f, sw, tgt, fld, rets):
+                    r.ok('Types::%s: %s.%s is collected and every collected reference is recursed into (dead ends apart)' % (v['n'], payload.rsplit('::', 1)[-1], fld))
                 else:
                     r.finding('wrapper-field-not-traversed:%s.%s' % (v['n'], fld), f.span,
                               'the Types::%s arm does not recurse into %s on every path: a cycle routed through that position is not detected' % (v['n'], fld))
@@ -305,15 +339,15 @@ def r_recursion_guard(r, prog):
         else:
             r.finding('stack-push-pop-unbalanced', c.span, 'dependency_stack is not pushed before or not popped after the recursive descent on every path')
     # no other way round the descent: entry leads to the recursion unless one of the two guards fired
-    cut = [(e['bb'], e['equal']) for e in g1 + g2]
+    cut = [(e['bb'], e['equal']) for e in g1 + g2] + _dead_end_edges(prog, f)
     open_blocks = f.reachable(0, blocked=[c.bb for c in rec], blocked_edges=cut)
     leaks = [b for b in f.return_blocks() if b in open_blocks]
     if leaks:
         r.finding('descent-skipped-for-another-reason', f.span,
-                  'push_to_stack_and_check can return without descending into the candidate although neither guard (candidate == type being checked, '
-                  'candidate already on the dependency stack) fired: cycles behind the skipped candidate are not diagnosed')
+                  'push_to_stack_and_check can return without descending into the candidate although no guard (candidate == type being checked, '
+                  'candidate already on the dependency stack, candidate a recorded dead end) fired: cycles behind the skipped candidate are not diagnosed')
     else:
-        r.ok('the descent is skipped only on the two guard edges')
+        r.ok('the descent is skipped only on the guard edges (self, on the stack, recorded dead end)')
     # the reporting path pushes and pops as well
     rep = f.calls_to('report_cycle_error')
     for c in rep:
@@ -476,7 +510,7 @@ def r_alias_through_anonymous(r, prog):
     for comp in prog.sccs(nodes):
         if set(comp) & readers:
             walkers |= set(comp)
-    own = {p_ for p_ in walkers if 'anonymous_type_contains_itself' in p_}
+    own = {p_ for p_ in walkers if 'leads_back_to' in p_ or 'nested_types_of' in p_}
     walkers -= own
     if len(walkers) < 6:
         raise AnchorMissing('recursive walkers over anonymous types (found %d)' % len(walkers))
@@ -494,17 +528,16 @@ def r_alias_through_anonymous(r, prog):
             r.finding('type-walk-before-alias-check:%s' % w, prog.fns[w].span, '%s recurses through anonymous types and is reachable during compilation without passing the self-containing-alias check' % w, chain(parent, w))
     else:
         r.ok('all %d recursive walkers over type expressions run only after self-containing aliases were rejected' % len(walkers))
-    # the check itself terminates: recursion only while the type is not yet on the path
-    w = prog.fn(CD + "CycleDetector::<'a>::anonymous_type_contains_itself")
-    cl = [f for f in prog.fns.values() if f.path.startswith(w.path + '::{closure')]
-    rec = [c for f in [w] + cl for c in f.calls() if c.resolved == w.path]
+    # the check itself terminates: every anonymous type is searched through at most once per alias
+    w = prog.fn(CD + "CycleDetector::<'a>::leads_back_to")
+    rec = [c for c in w.calls() if c.resolved == w.path and not w.blocks[c.bb].get('cleanup')]
     cont = [b for b in branches_on_call(w, lambda x: x.name() == 'contains')]
-    anyc = [c for c in w.calls() if c.name() == 'any' and not w.blocks[c.bb].get('cleanup')]
     push = [c for c in w.calls() if c.name() == 'push' and not w.blocks[c.bb].get('cleanup')]
-    if rec and cont and anyc and push and all(w.edge_dominates(b['bb'], b['false'], anyc[0].bb) for b in cont) and w.dominates(push[0].bb, anyc[0].bb):
-        r.ok('the containment walk descends only from a type that is not yet on its path, which it records first')
+    if rec and cont and push and all(w.edge_dominates(b['bb'], b['false'], c.bb) for b in cont for c in rec) and all(w.dominates(p_.bb, c.bb) for p_ in push for c in rec) \
+            and vexpr(w, push[0].args[1]) == vexpr(w, cont[0]['call'].args[1]):
+        r.ok('the search descends only into an anonymous type that was not searched before, which it records first')
     else:
-        r.finding('alias-walk-unguarded', w.span, 'anonymous_type_contains_itself recurses without the path-membership guard')
+        r.finding('alias-walk-unguarded', w.span, 'leads_back_to recurses without the searched-types guard')
     ct = prog.fn(CD + "CycleDetector::<'a>::check_type_alias_for_cycles")
     if any(a['fn'] is ct for a in aggregates(prog, 'slicec::diagnostics::errors::Error')) and ct.calls_to('Diagnostic::push_into'):
         r.ok('a self-containing alias produces an error diagnostic')
@@ -571,6 +604,59 @@ def r_search_state_and_identity(r, prog):
         r.finding('inheritance-loop-identity-not-scoped', ci.span, 'inheritance loops are de-duplicated by %s built from %s' % ([vexpr(ci, c.args[1])[:60] for c in ii], pp))
     r.floor(5)
 
+
+def r_dead_ends(r, prog):
+    """A type may be skipped as a dead end only if an earlier, complete search through it found nothing for the same root."""
+    CDT = CD + "CycleDetector::<'a>::"
+    n_ins = 0
+    for fn_name in ('push_to_stack_and_check', 'check_field_type_for_cycles'):
+        f = prog.fn(CDT + fn_name)
+        ins = [c for c in f.calls() if c.name() == 'insert' and re.search(r'dead_ends', vexpr(f, c.args[0])) and not f.blocks[c.bb].get('cleanup')]
+        rec = [c for c in f.calls() if (path_matches(c.callee, 'CycleCandidate::check_for_cycles') or path_matches(c.resolved, 'check_field_type_for_cycles')) and not f.blocks[c.bb].get('cleanup')]
+        for c in ins:
+            n_ins += 1
+            gs = guards.guard_set(prog, f, c.bb)
+            same = [g for g in gs if re.match(r'^Eq\(.*search_events.*,.*search_events.*\)$|^Eq\(arg1\.search_events,arg1\.search_events\)$', g)]
+            # the value compared with was read before the descent
+            reads = [bb for bb, j, lhs, rv, s in f.assigns() if rv['k'] == 'use' and 'search_events' in vexpr(f, rv['a'], depth=1) and not lhs.get('p')]
+            before = any(all(f.dominates(rb, x.bb) for x in rec) for rb in reads)
+            after = all(f.dominates(x.bb, c.bb) or x.bb in loop_body(f, x) for x in rec)
+            if same and before and rec:
+                r.ok('%s records a dead end only when the descent changed nothing in search_events (nothing found, nothing skipped)' % fn_name)
+            else:
+                r.finding('dead-end-recorded-unsoundly:%s' % fn_name, c.span, '%s records a dead end under %s: a type through which the root can still be reached (or whose search was cut short) would be skipped later' % (fn_name, gs))
+    # search_events is bumped on the two cutting edges of push_to_stack_and_check
+    f = prog.fn(CDT + 'push_to_stack_and_check')
+    bumps = []
+    for bb, j, lhs, rv, s in f.assigns():
+        names = [x.get('n') for x in lhs.get('p', []) if isinstance(x, dict) and 'f' in x]
+        if names == ['search_events'] and not f.blocks[bb].get('cleanup'):
+            bumps.append(bb)
+    eqs = eq_branches(f)
+    eq_edges = [(e['bb'], e['equal']) for e in eqs]
+    covered = [e for e in eq_edges if any(f.edge_dominates(e[0], e[1], b) for b in bumps)]
+    if len(bumps) >= 2 and len(covered) >= 2:
+        r.ok('search_events counts both events that make a search incomplete: the root was found, a type on the stack was skipped')
+    else:
+        r.finding('search-events-not-counted', f.span, 'search_events is bumped at %d site(s), on %d of the comparison edges: an incomplete search could be taken for a complete one' % (len(bumps), len(covered)))
+    # reset per root
+    dc = prog.fn(CD + 'detect_cycles')
+    clears = [c for c in dc.calls() if c.name() == 'clear' and re.search(r'dead_ends', vexpr(dc, c.args[0])) and not dc.blocks[c.bb].get('cleanup')]
+    roots = [c for c in dc.calls() if path_matches(c.callee, 'CycleCandidate::check_for_cycles')]
+    sets = {re.search(r'\.(\w*dead_ends)$', vexpr(dc, c.args[0])).group(1) for c in clears if re.search(r'\.(\w*dead_ends)$', vexpr(dc, c.args[0]))}
+    if roots and len(sets) >= 2 and all(all(dc.dominates(c.bb, x.bb) and loop_of(dc, c.bb) == loop_of(dc, x.bb) for x in roots) for c in clears):
+        r.ok('both dead-end sets are emptied before every root: nothing learnt for one type being checked is used for another')
+    else:
+        r.finding('dead-ends-survive-the-root', dc.span, 'the dead-end sets (%s) are not cleared before each root search: whether a type leads back depends on the root (memoising across roots hides cycles)' % sorted(sets))
+    if n_ins < 2:
+        raise AnchorMissing('dead-end insertions (found %d)' % n_ins)
+    r.floor(4)
+
+
+def loop_body(f, c):
+    lp = loop_of(f, c.bb)
+    return lp[1] if lp else set()
+
 def run(ctx):
     prog = ctx.prog
     ctx.run_rule('C05.1a', 'T2', 'cycle detection runs first; everything else in validate_ast is behind the no-errors edge', r_cycles_first, prog)
@@ -583,3 +669,4 @@ def run(ctx):
     ctx.run_rule('C05.5', 'T8', 'inheritance loops rejected before any consumer of the base closure; guarded search', r_inheritance, prog)
     ctx.run_rule('C05.6', 'T2', 'aliases that contain themselves through anonymous types are rejected before any recursive walk over type expressions', r_alias_through_anonymous, prog)
     ctx.run_rule('C05.7', 'T10', 'fresh search state per root; candidates scan on every path; cycles identified by scoped names', r_search_state_and_identity, prog)
+    ctx.run_rule('C05.8', 'T2', 'dead ends: recorded only after a complete search that found nothing; per root', r_dead_ends, prog)
